@@ -20,22 +20,63 @@ C13 — deterministic execution of cancel-scope programs on the REAL EasyNetwork
     - `join i`    `await Task(child i of the enclosing group).join()` (fails with the child's error, in the loop turn in
                   which the group cancels the host)
     - `trye body` `try: body except FutError: pass`
-* the trace: canonical text lines, virtual ticks only.
+* checkpoints of the task-group / backend API as the operation at which a cancellation arrives (real side + oracle only):
+    - `start body`   `await tg.start(child)` on the innermost enclosing `group`: a blocking operation of the host (one loop
+                     turn when nothing interferes); `body` is the new child task's program.  Interrupted, start() cancels
+                     the child, waits for it in a cancel-shielded section and re-raises
+    - `soon body`    `tg.start_soon(child)` in the middle of the group's body (not a checkpoint; line `spawn`)
+    - `pwait kind k` a backend primitive released by the scripted timer k of the case field `futs` ([tick, how, first]):
+                     `event` (create_event().wait()), `lock` (create_lock().acquire(), held by the harness until the
+                     timer), `cond` (`async with cond: await cond.wait()`, notified by the timer), `threada`
+                     (`run_in_thread(f, abandon_on_cancel=True)`), `thread` (`run_in_thread(f)`: a cancel-SHIELDED wait, like
+                     `syield`).  The thread pool is a fake executor whose futures the timer resolves (how = ok | err), so the
+                     schedule stays deterministic.  A primitive that is already released is logged `imm` (no suspension).
+    - `sleepu d`     `await backend.sleep_until(now + d)`;  `forever`  `await backend.sleep_forever()`
+    - `twait i` / `joinc i`   `Task(child i).wait()` / `.join_or_cancel()` (the latter cancels the child when interrupted)
+    - `tryf body finally cleanup`   `try: body finally: cleanup` (clean-up code, typically shielded, running while a
+                     CancelledError is on its way out: what TaskGroup.start() does internally)
+* the trace: canonical text lines, virtual ticks only.  `gcancel g t` = the asyncio.TaskGroup of `group` g cancelled its
+  host task (a child failed): observed through a pass-through wrapper of asyncio.TaskGroup._on_task_done.
+  `gjoin g t cc` = the body of group g ended normally, TaskGroup.__aexit__ starts waiting for the children (`gout` follows).
 """
 from __future__ import annotations
 
 import asyncio
+import concurrent.futures
 import heapq
 import math
 import threading
+import warnings
 from asyncio import events
 from typing import Any
 
 from . import core  # noqa: F401  (sets sys.path for the repository under test)
 
 
+# start() / start_soon() on a task group that is shutting down raise before the child coroutine is ever scheduled
+warnings.filterwarnings("ignore", message="coroutine .* was never awaited", category=RuntimeWarning)
+
+
 class Deadlock(Exception):
     pass
+
+
+# Observation only: the moment an asyncio.TaskGroup cancels its host task (a child failed).  It happens in the done
+# callback of the child, one loop turn after the child's last step, before or after the host's own step of that turn;
+# the oracle needs the exact position (was the host inside a shielded section then?).
+_GROUP_REC: dict[int, Any] = {}
+_orig_on_task_done = asyncio.TaskGroup._on_task_done
+
+
+def _on_task_done(self, task):  # type: ignore[no-untyped-def]
+    before = self._parent_cancel_requested
+    _orig_on_task_done(self, task)
+    rec = _GROUP_REC.get(id(self))
+    if rec is not None and not before and self._parent_cancel_requested:
+        rec()
+
+
+asyncio.TaskGroup._on_task_done = _on_task_done  # type: ignore[method-assign]
 
 
 class _SeqTimer(events.TimerHandle):
@@ -109,7 +150,106 @@ class _Running:
 # ------------------------------------------------------------------------------------------------
 
 OPEN = {"scope": "endscope", "shield": "endshield", "try": "endtry", "trye": "endtrye", "group": "endgroup",
-        "child": "endchild"}
+        "child": "endchild", "start": "endstart", "soon": "endsoon", "tryf": "endtryf"}
+CHILD_BLOCKS = ("child", "start", "soon")        # blocks whose body is the program of a NEW task
+SHIELDED_PRIMS = ("thread",)                      # `pwait` kinds that wait inside cancel_shielded_await
+
+
+def is_shielded_op(w: list[str]) -> bool:
+    """operations that are cancel-shielded by themselves (they must complete; a cancellation is postponed)"""
+    return w[0] == "syield" or (w[0] == "pwait" and w[1] in SHIELDED_PRIMS)
+
+
+def split_finally(kids: list[Any]) -> tuple[list[Any], list[Any]]:
+    """children of a `tryf` node -> (body, cleanup): the marker line `finally` separates them"""
+    for i, k in enumerate(kids):
+        if k[1][0] == "finally":
+            return kids[:i], kids[i + 1:]
+    return kids, []
+
+
+class _Grp(list):
+    """asyncio tasks of the `child` blocks of a task group, in order (targets of `join i`), plus the group itself"""
+    tg: Any = None
+
+
+class _FakeExecutor(concurrent.futures.ThreadPoolExecutor):
+    """`loop.run_in_executor(None, f)` without threads: submit() hands out a concurrent future that the scripted timer
+    of the primitive resolves (from the loop thread; asyncio forwards it with call_soon_threadsafe = next loop turn)"""
+
+    def __init__(self) -> None:
+        super().__init__(max_workers=1)
+        self.pending: dict[int, concurrent.futures.Future] = {}
+        self.resolved: dict[int, str] = {}
+
+    def submit(self, fn, /, *args, **kwargs):  # type: ignore[override]
+        k = fn.args[0].k          # fn = functools.partial(ctx.run, func, *args)  (AsyncIOBackend.run_in_thread)
+        f: concurrent.futures.Future = concurrent.futures.Future()
+        if k in self.resolved:
+            self._set(f, self.resolved[k])
+        else:
+            self.pending[k] = f
+        return f
+
+    @staticmethod
+    def _set(f: concurrent.futures.Future, how: str) -> None:
+        if how == "err":
+            f.set_exception(FutError())
+        else:
+            f.set_result(None)
+
+    def resolve(self, k: int, how: str) -> bool:
+        self.resolved[k] = how
+        f = self.pending.pop(k, None)
+        if f is not None and not f.done():
+            self._set(f, how)
+            return True
+        return False
+
+
+class Prim:
+    """one scripted primitive of a `pwait kind k` statement (the kind is fixed by the statement that uses it)"""
+
+    def __init__(self, kind: str, k: int, backend, executor: _FakeExecutor) -> None:
+        self.kind, self.k = kind, k
+        self.released = False
+        self.executor = executor
+        self.obj: Any = None
+        if kind == "event":
+            self.obj = backend.create_event()
+        elif kind == "lock":
+            self.obj = backend.create_lock()
+            _drive(self.obj.acquire())            # held by the harness until the timer fires
+        elif kind == "cond":
+            self.obj = backend.create_condition_var()
+
+    def release(self, how: str) -> bool:
+        """the scripted timer: returns whether somebody / something was waiting"""
+        self.released = True
+        if self.kind == "event":
+            self.obj.set()
+            return True
+        if self.kind == "lock":
+            self.obj.release()
+            return True
+        if self.kind == "cond":
+            _drive(self.obj.acquire())
+            try:
+                self.obj.notify_all()
+            finally:
+                self.obj.release()
+            return True
+        return self.executor.resolve(self.k, how)
+
+
+def _drive(coro) -> None:
+    """run a coroutine that must not suspend (asyncio.Lock.acquire() on a free lock)"""
+    try:
+        coro.send(None)
+    except StopIteration:
+        return
+    coro.close()
+    raise RuntimeError("harness: lock was not free")
 
 
 class FutError(Exception):
@@ -152,6 +292,8 @@ def _cls(e: BaseException | None) -> str:
         return "timeout"
     if isinstance(e, FutError):
         return "ferr"
+    if isinstance(e, RuntimeError) and ("is shutting down" in str(e) or "is finished" in str(e)):
+        return "gdown"      # asyncio.TaskGroup.create_task() on a group that is aborting (a child failed / host cancelled)
     if isinstance(e, BaseExceptionGroup):
         kinds = sorted({_cls(x) for x in e.exceptions})
         return "group[" + ",".join(kinds) + "]"
@@ -165,6 +307,16 @@ class Runner:
         self.out = out
         self.ext_calls = 0
         self.futs: list[asyncio.Future] = []
+        self.executor = _FakeExecutor()
+        self.prims: dict[int, Prim] = {}
+        self.fired: dict[int, str] = {}      # scripted timers that have fired already: k -> how
+
+    def prim(self, kind: str, k: int) -> Prim:
+        if k not in self.prims:
+            self.prims[k] = Prim(kind, k, self.backend, self.executor)
+            if k in self.fired:
+                self.prims[k].release(self.fired[k])
+        return self.prims[k]
 
     def now(self) -> int:
         return self.loop._vnow
@@ -267,8 +419,86 @@ class Runner:
                 await self._blocking(sid, scopes, Task(ct).join(), ct.cancelled)
         elif op == "group":
             await self.group(sid, kids, scopes)
+        elif op == "start":
+            if children is None or children.tg is None:
+                raise ValueError("start outside a task group")
+            await self._blocking(sid, scopes, children.tg.start(self.child, st))
+        elif op == "soon":
+            if children is None or children.tg is None:
+                raise ValueError("soon outside a task group")
+            try:
+                children.tg.start_soon(self.child, st)
+            except RuntimeError as e:
+                self.out.append(f"err {sid} {self.now()} {_cls(e)}")
+                raise
+            self.out.append(f"spawn {sid} {self.now()}")
+        elif op == "pwait":
+            await self.pwait(sid, w[1], int(w[2]), scopes)
+        elif op == "sleepu":
+            await self._blocking(sid, scopes, b.sleep_until(b.current_time() + int(w[1])))
+        elif op == "forever":
+            await self._blocking(sid, scopes, b.sleep_forever())
+        elif op in ("twait", "joinc"):
+            from easynetwork.lowlevel.api_async.backend._asyncio.tasks import Task
+
+            ct = children[int(w[1])]
+            if ct.done():
+                if op == "twait":
+                    self.out.append(f"imm {sid} {self.now()} ok")
+                else:
+                    await self._immediate(sid, ct)
+            elif op == "twait":
+                await self._blocking(sid, scopes, Task(ct).wait())
+            else:
+                await self._blocking(sid, scopes, Task(ct).join_or_cancel(), ct.cancelled)
+        elif op == "tryf":
+            body, cleanup = split_finally(kids)
+            try:
+                await self.block(body, scopes, children)
+            finally:
+                self.out.append(f"fin {sid} {self.now()}")
+                await self.block(cleanup, scopes, children)
         else:
             raise ValueError(f"bad op {w}")
+
+    async def pwait(self, sid: int, kind: str, k: int, scopes: list) -> None:
+        b = self.backend
+        pr = self.prim(kind, k)
+        if kind == "event":
+            if pr.obj.is_set():
+                self.out.append(f"imm {sid} {self.now()} ok")
+            await self._maybe(sid, scopes, pr.obj.wait(), pr.obj.is_set())
+        elif kind == "lock":
+            free = not pr.obj.locked()
+            if free:
+                self.out.append(f"imm {sid} {self.now()} ok")
+            await self._maybe(sid, scopes, pr.obj.acquire(), free)
+            pr.obj.release()
+        elif kind == "cond":
+            if pr.released:
+                # the notification came before the wait: nothing to wait for (a real program would test its predicate)
+                self.out.append(f"imm {sid} {self.now()} ok")
+                return
+
+            async def cond_wait() -> None:
+                async with pr.obj:
+                    await pr.obj.wait()
+
+            await self._blocking(sid, scopes, cond_wait())
+        elif kind in ("thread", "threada"):
+            def work() -> None:        # never runs: the fake executor resolves the future from the script
+                return None
+
+            work.k = k  # type: ignore[attr-defined]
+            await self._blocking(sid, scopes, b.run_in_thread(work, abandon_on_cancel=(kind == "threada")))
+        else:
+            raise ValueError(f"bad primitive {kind}")
+
+    async def _maybe(self, sid: int, scopes: list, aw, immediate: bool) -> None:
+        if immediate:
+            await aw
+        else:
+            await self._blocking(sid, scopes, aw)
 
     async def scope(self, sid: int, w: list[str], kids, scopes: list, children: list | None = None) -> None:
         b = self.backend
@@ -307,13 +537,19 @@ class Runner:
         self.out.append(f"gin {sid} {self.now()}")
         try:
             async with b.create_task_group() as tg:
-                children: list = []      # asyncio tasks of the `child` blocks, in order (for `join i`)
+                children = _Grp()        # asyncio tasks of the `child` blocks, in order (for `join i`)
+                children.tg = tg
+                atg = getattr(tg, "_TaskGroup__asyncio_tg", None)
+                if atg is not None:
+                    _GROUP_REC[id(atg)] = lambda: self.out.append(f"gcancel {sid} {self.now()}")
                 for k in kids:
                     if k[1][0] == "child":
                         before = asyncio.all_tasks(self.loop)
                         tg.start_soon(self.child, k)
                         children.extend(asyncio.all_tasks(self.loop) - before)
                 await self.block([k for k in kids if k[1][0] != "child"], scopes, children)
+                # the body is over: TaskGroup.__aexit__ now waits for the children (a checkpoint iff some are pending)
+                self.out.append(f"gjoin {sid} {self.now()} {self._cc(scopes)}")
         except BaseException as e:
             self.out.append(f"gout {sid} {self.now()} {_cls(e)}")
             raise
@@ -324,7 +560,7 @@ class Runner:
         task = asyncio.current_task()
         self.out.append(f"cin {sid} {self.now()}")
         try:
-            await self.block(kids, [])
+            await self.block(kids, [])       # (a child task has no group of its own: `start`/`join` refer to none)
         except BaseException as e:
             self.out.append(f"cout {sid} {self.now()} {_cls(e)} {task.cancelling()}")
             raise
@@ -342,6 +578,8 @@ def run_program(lines: list[str], ext: list[int], ext_last: bool = False, max_tu
         with _Running(loop):
             backend = AsyncIOBackend()
             r = Runner(loop, backend, out)
+            loop._default_executor = r.executor      # run_in_thread() -> loop.run_in_executor(None, …): no real thread
+            prim_keys = {int(ln.split()[2]) for ln in lines if ln.startswith("pwait ")}
             task = loop.create_task(r.block(tree, []))
 
             def ext_cancel() -> None:
@@ -349,6 +587,11 @@ def run_program(lines: list[str], ext: list[int], ext_last: bool = False, max_tu
                 task.cancel()
 
             def resolve(k: int, how: str) -> None:
+                if k in prim_keys:
+                    r.fired[k] = how
+                    pr = r.prims.get(k)
+                    out.append(f"fut {k} {loop._vnow} {how} {int(pr.release(how)) if pr is not None else 0}")
+                    return
                 f = r.futs[k]
                 out.append(f"fut {k} {loop._vnow} {how} {int(not f.done())}")
                 if not f.done():
@@ -395,13 +638,14 @@ def run_program(lines: list[str], ext: list[int], ext_last: bool = False, max_tu
                 if task.done() and not task.cancelled():
                     task.exception()
     finally:
+        _GROUP_REC.clear()
         try:
             # drain silently
             loop._ready.clear()
             loop._scheduled.clear()
         finally:
             loop.close()
-    return out
+    return list(out)      # (a copy: coroutines of a run that hung are closed at garbage collection and would append to it)
 
 
 def _hname(h) -> str:
